@@ -1,10 +1,14 @@
 #!/bin/bash
-# runall.sh [quick|thorough] : runs every claimed check on /repo, rewriting evidence/*.json; prints one line each.
+# runall.sh [quick|thorough|configs] : runs every claimed check on /repo, rewriting evidence/*.json; prints one line each.
+# configs = the thorough tier (all 8 feature configurations, witnesses) without the per-property mutant self-test and
+# without rewriting evidence: the fast way to see that a rule edit holds under every configuration.
 T=${1:-quick}
+EXTRA=""
+if [ "$T" = configs ]; then T=thorough; export SAVF_NO_SELFTEST=1; EXTRA="--no-evidence"; fi
 cd "$(dirname "$0")/.."
 rc=0
 for p in $(python3 -c "import json; print(' '.join(c['property_id'] for c in json.load(open('MANIFEST.json'))['checks']))"); do
-  out=$(./check $p --tier $T 2>&1); code=$?
+  out=$(./check $p --tier $T $EXTRA 2>&1); code=$?
   echo "$out" | grep -E "^(VIOLATION|INCONCLUSIVE|SELFTEST-NOTE|C[0-9]+:)" | grep -v "^KNOWN"
   [ $code -eq 0 ] || rc=1
 done
